@@ -14,4 +14,7 @@ let () =
   match mode with
   | "c18" -> per_line M_c18.line
   | "c18s" -> per_line M_c18.sline
+  | "c17" -> per_line M_c17.line
+  | "c17u" -> per_line M_c17.uline
+  | "c17e" -> per_line M_c17.eline
   | _ -> prerr_endline ("unknown mode " ^ mode); exit 2
